@@ -161,6 +161,7 @@ def run_deductive(prop, tier, seed, report):
     report["samples"] = samples
     report["_engine"] = eng
     report["_failed"] = failed
+    report["_solved_names"] = set(by_name)
     report["_discharged_names"] = sorted(n for n, lst in by_name.items() if all((not ob.expect_fail) and r["verdict"] == "unsat" for ob, r in lst))
     report["_funcs"] = funcs
     report["_smoke_bad"] = smoke_bad
@@ -283,7 +284,10 @@ def main(argv=None):
             for f in listed:
                 known_lines.append(f"KNOWN-FINDING: property={prop} {f['what']}")
             continue
-        in_ledger = name in ledger.get("obligations", {})
+        # decided against the committed baseline: an obligation that was discharged there, or one that did not exist there (new code
+        # brings new definedness / frame obligations), is a violation when it is not discharged now; only the obligations that were
+        # already undecided on the baseline stay undecided
+        in_ledger = name in ledger.get("obligations", {}) or (bool(ledger.get("obligations")) and not a.update_ledger and name not in ledger.get("undecided", []))
         w, ev, dn = witness_for(ob.func, tier)
         payload = {"property": prop, "obligation": name, "function": ob.func, "line": ob.line, "clause": ob.text,
                    "solver": r, "tree": report["_engine"].repo.tree_hash() if "_engine" in report else None}
@@ -374,6 +378,9 @@ def main(argv=None):
         for name in report.get("_discharged_names", []):
             if name not in failed:
                 ledger.setdefault("obligations", {})[name] = True
+        und = set(ledger.get("undecided", []))
+        und = {n for n in und if n not in report.get("_solved_names", ())} | set(failed)
+        ledger["undecided"] = sorted(und)
         for k, rep in funcs.items():
             ledger.setdefault("functions", {})[k] = rep["status"]
         with open(os.path.join(HERE, "ledger.json"), "w") as fh:
